@@ -37,9 +37,9 @@ func c08Probes(h string) []fsx.Op {
 		{K: "READLINK", H: h}, {K: "READ", H: h, Off: 0, Cnt: 100}, {K: "WRITE", H: h, Off: 0, Cnt: 5, Pat: 9, Stable: 2},
 		{K: "CREATE", H: h, N: "probe-c", As: "_"}, {K: "MKDIR", H: h, N: "probe-m", As: "_"}, {K: "SYMLINK", H: h, N: "probe-s", Target: "t", As: "_"},
 		{K: "REMOVE", H: h, N: "probe-c"}, {K: "RMDIR", H: h, N: "probe-m"}, {K: "REMOVE", H: h, N: "probe-s"},
-		{K: "RENAME", H: h, N: "a", H2: "root", N2: "probe-r1"},           // dead/live handle as source directory
-		{K: "RENAME", H: "root", N: "probe-src", H2: h, N2: "probe-r2"},   // as target directory
-		{K: "RENAME", H: h, N: "a", H2: h, N2: "probe-r3"},                // as both
+		{K: "RENAME", H: h, N: "a", H2: "root", N2: "probe-r1"},         // dead/live handle as source directory
+		{K: "RENAME", H: "root", N: "probe-src", H2: h, N2: "probe-r2"}, // as target directory
+		{K: "RENAME", H: h, N: "a", H2: h, N2: "probe-r3"},              // as both
 		{K: "READDIR", H: h, Cnt: 1 << 16}, {K: "READDIRPLUS", H: h, DirCnt: 1 << 16, MaxCnt: 1 << 16}, {K: "COMMIT", H: h},
 		{K: "FSINFO", H: h}, {K: "PATHCONF", H: h},
 	}
